@@ -145,7 +145,18 @@ class Sem:
         if k == 1:
             return f"if ({self.expr(1)}) {self.stmt(d - 1, in_loop, in_switch)}"
         if k == 2:
-            return f"if ({self.expr(1)}) {{ {self.stmt(d - 1, in_loop, in_switch)} }} else {self.stmt(d - 1, in_loop, in_switch)}"
+            # the then-branch of an if WITH else: in braces, or bare when it cannot capture the else (C99 6.8.4.1p3)
+            form = r.randint(0, 4)
+            if form == 0:
+                th = self.closed(d - 1, in_loop, in_switch)
+            elif form == 1:
+                th = f"if ({self.expr(1)}) {self.closed(d - 1, in_loop, in_switch)} else {self.closed(d - 1, in_loop, in_switch)}"
+            elif form == 2:
+                th = f"if ({self.expr(1)}) {self.closed(d - 1, in_loop, in_switch)} else {{ }}"
+            else:
+                th = "{ " + self.stmt(d - 1, in_loop, in_switch) + " }"
+            el = r.choice(["{ }", self.stmt(d - 1, in_loop, in_switch), self.stmt(d - 1, in_loop, in_switch)])
+            return f"if ({self.expr(1)}) {th} else {el}"
         if k == 3:
             return f"while ({self.expr(1)}) {self.stmt(d - 1, True, in_switch)}"
         if k == 4:
@@ -173,6 +184,22 @@ class Sem:
             return f"goto L{r.randint(1, self.labels)};"
         return self.stmt(0, in_loop, in_switch)
 
+    def closed(self, d, in_loop=False, in_switch=False):
+        """a statement that does not end in an if without else"""
+        r = self.r
+        k = r.randint(0, 5)
+        if k == 0:
+            return f"{self.expr(2)};"
+        if k == 1:
+            return "{ " + " ".join(self.item(max(d - 1, 0), in_loop, in_switch) for _ in range(r.randint(0, 2))) + " }"
+        if k == 2:
+            return f"do {self.stmt(max(d - 1, 0), True, in_switch)} while ({self.expr(1)});"
+        if k == 3:
+            return f"while ({self.expr(1)}) {self.closed(max(d - 1, 0), True, in_switch)}"
+        if k == 4:
+            return f"if ({self.expr(1)}) {self.closed(max(d - 1, 0), in_loop, in_switch)} else {self.closed(max(d - 1, 0), in_loop, in_switch)}"
+        return ";"
+
     def item(self, d, in_loop=False, in_switch=False):
         r = self.r
         if r.random() < 0.25:
@@ -180,17 +207,23 @@ class Sem:
             return r.choice([f"int v{n} = {self.expr(1)};", f"const long c{n} = 3, *pc{n} = &c{n};", f"static T st{n};",
                              f"struct S ls{n} = {{ .a = {self.expr(1)}, .arr = {{ [1] = 2 }} }};", f"int m{n}[2][3] = {{ {{ 1, 2 }}, {{ [2] = 3 }} }};",
                              f"enum E en{n} = K1;", f"register unsigned char rc{n} = 'q';", f"int (*lf{n})(int, int) = two;",
-                             f"volatile T vt{n} = (T) l1;", f"union U lu{n} = {{ .f = 1.5f }};"])
+                             f"volatile T vt{n} = (T) l1;", f"union U lu{n} = {{ .f = 1.5f }};",
+                             f"{{ struct In {{ long q[2]; char r; }} w{n}; loc += sizeof w{n} + sizeof(struct In); }}",
+                             f"{{ enum E {{ K0 = 40, K9 }} e{n} = K9; loc += e{n} + K0; }}",
+                             f"struct S d{n} = {{ .a = (a++, a + 1), .b = 2 }};", f"int q{n}[2] = {{ (b--, b), [1] = (a = 2) }};",
+                             f"const char *ls{n} = \"0123456789012345678901234567890123456789012345678901234567890\\x41\\102\\n{n}\"; loc += ls{n}[62] + sizeof \"01234567890123456789012345678901234567890123456789012345678901234567\\t\";"])
         return self.stmt(d, in_loop, in_switch)
 
     def function(self, name, depth):
         self.labels = 0
         body = " ".join(self.item(depth) for _ in range(self.r.randint(1, 5)))
-        return (f"{self.r.choice(['', 'static ', 'inline static '])}int {name}(int a, int b) {{ int loc = a; int larr[3] = {{ 1, 2, 3 }}; int *ip = &loc; T t1 = 0; "
+        return (f"{self.r.choice(['', 'static ', 'inline static ', 'static inline ', 'extern '])}int {name}(int a, int b) {{ int loc = a; int larr[3] = {{ 1, 2, 3 }}; int *ip = &loc; T t1 = 0; "
                 f"{body} return loc + larr[0] + *ip + t1; }}")
 
     def program(self, nfun=2, depth=2):
-        return "\n".join(PRELUDE + [self.function(f"fn{i}", depth) for i in range(nfun)]) + "\n"
+        # the (often static / inline) functions are all used, so that their storage class and specifiers leave a trace
+        user = "int use_all(int a, int b) { return " + " + ".join(f"fn{i}(a, b + {i})" for i in range(nfun)) + "; }"
+        return "\n".join(PRELUDE + [self.function(f"fn{i}", depth) for i in range(nfun)] + [user]) + "\n"
 
 
 # hand-written, self-contained, compilable programs: constructs whose meaning depends on details the random generator
